@@ -259,6 +259,20 @@ FAULTS = {
 RECORD_ONLY = {"credential-type"}
 
 
+def long_origin_list(origin, n=40):
+    """a list of n expected origins with `origin` deep inside it (index >= n - 3) and, before AND after it, other origins of the same host
+    (another scheme / port / case): membership is decided by string equality however long the list is and whatever else it holds"""
+    try:
+        from urllib.parse import urlsplit
+        host = urlsplit(origin).hostname or "example.com"
+    except Exception:
+        host = "example.com"
+    same_host = [f"http://{host}", f"https://{host}:8443", f"https://{host.upper()}", f"https://{host}:443"]
+    same_host = [o for o in same_host if o != origin]
+    fill = [f"https://tenant{i}.example" for i in range(max(0, n - len(same_host) - 1))]
+    return same_host[:2] + fill + [origin] + same_host[2:]
+
+
 def base_variation(s, rng):
     """Legitimate variation of the base ceremony (all accepted)."""
     s.rp_id = rng.choice(["example.com", "login.example.org", "xn--bcher-kva.example", "bücher.example", "a"])
